@@ -5,7 +5,7 @@
        Struct.SetPtr / Message.SetRoot of objects of the same message }.
    See the end of the file for the theorem over op lists ([heap_inv_partial2]). *)
 From CV Require Import Core.Builder Core.ReaderFacts Core.ArithFacts Core.BuilderFacts Core.AllocProofs
-  Core.WritePtrProofs Core.HeapProofs Core.BuildOps Core.BuildValid Core.BuildInv.
+  Core.WritePtrProofs Core.HeapProofs Core.CopyProofs Core.BuildOps Core.BuildValid Core.BuildInv.
 From Coq Require Import ZifyBool ZifyNat.
 Open Scope Z_scope.
 
@@ -474,4 +474,188 @@ Proof.
       replace (p_off h + 8 * 0) with (p_off h) by lia.
       cbn [r_size] in Hin. rewrite L5 in Hin. rewrite Hin. rewrite L5, L2. reflexivity.
   - destruct Hs.
+Qed.
+
+(* ------------------------------------------------------------------ from byte frames to words *)
+Lemma seg_len_bm m i : seg_len (bm_data m) i = zlen (mem m i).
+Proof. unfold seg_len. now rewrite nth_bm_data. Qed.
+
+Lemma zlen_bm m : zlen (bm_data m) = nsegs m.
+Proof. unfold bm_data, nsegs. apply zlen_map. Qed.
+
+Lemma word_at_sub m i b : 0 <= i < nsegs m -> 0 <= b -> b + 8 <= zlen (mem m i) ->
+  word_at (bm_data m) i b = Some (le_decode (sub (mem m i) b 8)).
+Proof.
+  intros Hi Hb Hl. unfold word_at. cbv zeta. rewrite zlen_bm, nth_bm_data.
+  assert (C1 : (0 <=? i) && (i <? nsegs m) = true) by (apply andb_true_intro; split; lia).
+  assert (C2 : (0 <=? b) && (b + 8 <=? zlen (mem m i)) = true) by (apply andb_true_intro; split; lia).
+  rewrite C1, C2. reflexivity.
+Qed.
+
+Lemma keeps_word m m' (R : Z -> Z -> Prop) i b :
+  keeps m m' R -> 0 <= i < nsegs m -> nsegs m <= nsegs m' -> 0 <= b -> b + 8 <= zlen (mem m i) ->
+  (forall k, b <= k < b + 8 -> ~ R i k) ->
+  word_at (bm_data m') i b = word_at (bm_data m) i b.
+Proof.
+  intros K Hi Hn Hb Hl HR. pose proof (proj1 K i ltac:(lia)) as L.
+  rewrite !word_at_sub by lia. f_equal. f_equal. eapply keeps_sub; eauto; lia.
+Qed.
+
+Lemma keeps_grows m m' R : keeps m m' R -> nsegs m <= nsegs m' -> grows (bm_data m) (bm_data m').
+Proof.
+  intros K Hn. split; [rewrite !zlen_bm; exact Hn|]. intros i Hi. rewrite !seg_len_bm. apply (proj1 K). lia.
+Qed.
+
+(* ------------------------------------------------------------------ the invariant *)
+Definition root_reg : region := mkReg 0 0 8.
+Definition slots (h : Ptr) : list (Z * Z) := children (tgt_of h).
+Definition in_msg (ms : segs) (r : region) : Prop := in_seg ms (r_seg r) (r_start r) (r_size r) = true.
+
+Definition slot_ok (ms : segs) (pads : list region) (objs : list Ptr) (q : Z * Z) : Prop :=
+  exists t rs, resolve_ptr ms (fst q) (snd q) = (t, rs) /\ simple_target t /\
+    (rs = [] \/ exists ps r, rs = ps ++ [r] /\ incl ps pads /\
+        (r_size r = 0 \/ exists h, In h objs /\ r = obj_reg h /\ t = tgt_of h)).
+
+Definition all_regs (objs : list Ptr) (pads : list region) : list region := root_reg :: map obj_reg objs ++ pads.
+
+Record hinv (m : bmsg) (objs : list Ptr) (pads : list region) : Prop := mkHinv {
+  hi_inv : inv m;
+  hi_small : segs_small m;
+  hi_nsegs : nsegs m < 4294967296;
+  hi_good : forall h, In h objs -> p_valid h = true /\ good (bm_data m) h;
+  hi_in : forall r, In r (all_regs objs pads) -> in_msg (bm_data m) r;
+  hi_pads : forall r, In r pads -> 0 < r_size r;
+  hi_disj : forall a b, In a (all_regs objs pads) -> In b (all_regs objs pads) -> a = b \/ reg_disjoint a b = true;
+  hi_slots : forall q, In q ((0, 0) :: flat_map slots objs) -> slot_ok (bm_data m) pads objs q
+}.
+
+(* a slot's own word lies inside its object (or is the root word) *)
+Lemma slot_in_obj (ms : segs) h q : p_valid h = true -> good ms h -> In q (slots h) ->
+  fst q = p_seg h /\ p_off h <= snd q /\ snd q + 8 <= p_off h + r_size (obj_reg h) /\ snd q mod 8 = p_off h mod 8.
+Proof.
+  intros Hv (Hs & Hseg & Hin & Hoff) Hq. unfold slots, tgt_of, obj_reg, obj_bytes, shape_ok in *.
+  destruct (p_kind h) eqn:EK; cbn [children] in Hq.
+  - destruct Hs as (Hd & Hm & Hp). apply in_map_iff in Hq. destruct Hq as (a & <- & Ha).
+    unfold zseq in Ha. apply in_map_iff in Ha. destruct Ha as (k & <- & Hk). apply in_seq in Hk. cbn [fst snd r_size].
+    assert (TS : totalSize (p_size h) = DataSize (p_size h) + 8 * PointerCount (p_size h)) by (unfold totalSize, pointerSize, u32; lia).
+    rewrite TS. unfold padToWord, u32. lia.
+  - destruct Hs as (Hc & Hn & Hk). destruct (et_of h =? 6) eqn:E6; [|destruct Hq].
+    apply in_map_iff in Hq. destruct Hq as (a & <- & Ha).
+    unfold zseq in Ha. apply in_map_iff in Ha. destruct Ha as (k & <- & Hk'). apply in_seq in Hk'. cbn [fst snd r_size].
+    (* et = 6 only for pointer lists *)
+    assert (PL : p_bit h = false /\ p_size h = mkOS 0 1).
+    { unfold et_of in E6. destruct Hk as [[Hb Hsz]|[Hb [Hsz|(d & Hsz & Hd)]]].
+      - rewrite Hb in E6. discriminate.
+      - auto.
+      - rewrite Hb, Hsz in E6. cbn [PointerCount DataSize] in E6. change (0 =? 1) with false in E6. cbv iota zeta in E6.
+        destruct Hd as [->|[->|[->|[->| ->]]]]; discriminate. }
+    destruct PL as [Pb Ps].
+    rewrite (list_alloc_plain h 0 1) by (auto; lia). unfold padToWord, u32. lia.
+  - destruct Hq.
+Qed.
+
+Lemma in_seg_elim (ms : segs) sid st sz : in_seg ms sid st sz = true ->
+  0 <= sid < zlen ms /\ 0 <= st /\ 0 <= sz /\ st + sz <= seg_len ms sid /\ st mod 8 = 0.
+Proof. unfold in_seg. intros H. repeat (apply andb_prop in H; destruct H as [H ?]). lia. Qed.
+
+Lemma removelast_snoc {A} (l : list A) x : removelast (l ++ [x]) = l.
+Proof. apply removelast_last. Qed.
+
+(* a slot whose own word and whose pads are not touched stays valid *)
+Lemma slot_ok_frame m m' (R : Z -> Z -> Prop) pads objs pads' objs' q :
+  (forall r, In r pads -> in_msg (bm_data m) r) ->
+  keeps m m' R -> nsegs m <= nsegs m' ->
+  (forall k, snd q <= k < snd q + 8 -> ~ R (fst q) k) ->
+  (forall r, In r pads -> forall k, r_start r <= k < r_start r + r_size r -> ~ R (r_seg r) k) ->
+  incl pads pads' -> incl objs objs' ->
+  slot_ok (bm_data m) pads objs q -> slot_ok (bm_data m') pads' objs' q.
+Proof.
+  intros Hin K Hn Hq Hp Ip Io (t & rs & E & S & C).
+  exists t, rs. split; [|split; [exact S|]].
+  - apply (resolve_stable (bm_data m)); auto.
+    + eapply keeps_grows; eauto.
+    + (* the slot word *)
+      unfold resolve_ptr in E. destruct (word_at (bm_data m) (fst q) (snd q)) as [w|] eqn:EW;
+        [|inversion E; subst; cbn in S; contradiction].
+      destruct (word_at_range _ _ _ _ EW) as (G1 & G2 & G3). rewrite zlen_bm in G1. rewrite seg_len_bm in G3.
+      rewrite <- EW. apply (keeps_word m m' R); auto.
+    + intros r i b Hr Hw.
+      destruct C as [->|(ps & r0 & -> & Ips & _)]; [destruct Hr|].
+      rewrite removelast_snoc in Hr. specialize (Hin r (Ips r Hr)). unfold in_msg in Hin.
+      destruct (in_seg_elim _ _ _ _ Hin) as (G1 & G2 & G3 & G4 & _). rewrite zlen_bm in G1. rewrite seg_len_bm in G4.
+      destruct Hw as (-> & W1 & W2).
+      apply (keeps_word m m' R); auto; try lia.
+      intros k Hk. apply (Hp r (Ips r Hr)). lia.
+  - destruct C as [->|(ps & r0 & -> & Ips & D)]; [left; reflexivity|right].
+    exists ps, r0. split; [reflexivity|]. split; [intros x Hx; apply Ip, Ips, Hx|].
+    destruct D as [D|(h & Hh & D1 & D2)]; [left; exact D|right]. exists h. split; [apply Io, Hh|auto].
+Qed.
+
+(* freshly allocated words are null pointers *)
+Lemma null_slot_ok (ms : segs) pads objs q : word_at ms (fst q) (snd q) = Some 0 -> slot_ok ms pads objs q.
+Proof.
+  intros H. exists GNull, []. unfold resolve_ptr. rewrite H. cbn. split; [reflexivity|]. split; [exact I|left; reflexivity].
+Qed.
+
+(* ------------------------------------------------------------------ a constructor adds an object *)
+Lemma in_msg_mono (ms ms' : segs) r : grows ms ms' -> in_msg ms r -> in_msg ms' r.
+Proof. unfold in_msg. intros. eapply in_seg_mono; eauto. Qed.
+
+Lemma good_mono (ms ms' : segs) h : grows ms ms' -> good ms h -> good ms' h.
+Proof. intros G (A & B & C & D). split; [exact A|]. split; [exact B|]. split; [eapply in_seg_mono; eauto|exact D]. Qed.
+
+Lemma fresh_disjoint (m : bmsg) a r :
+  in_msg (bm_data m) a -> (r_size r = 0 \/ zlen (mem m (r_seg r)) <= r_start r) -> reg_disjoint a r = true.
+Proof.
+  intros Ha Hr. unfold reg_disjoint. unfold in_msg in Ha.
+  destruct (in_seg_elim _ _ _ _ Ha) as (G1 & G2 & G3 & G4 & _). rewrite seg_len_bm in G4.
+  destruct Hr as [Hr|Hr]; [rewrite Hr; cbn; now rewrite Bool.orb_true_r|].
+  destruct (Z.eq_dec (r_seg a) (r_seg r)) as [E|E].
+  - rewrite E in G4. assert (X : (r_start a + r_size a <=? r_start r) = true) by lia. rewrite X.
+    now rewrite !Bool.orb_true_r.
+  - assert (X : negb (r_seg a =? r_seg r) = true) by (destruct (r_seg a =? r_seg r) eqn:EE; [lia|reflexivity]).
+    rewrite X. now rewrite !Bool.orb_true_r.
+Qed.
+
+Lemma reg_disjoint_sym a b : reg_disjoint a b = true -> reg_disjoint b a = true.
+Proof. unfold reg_disjoint. intros H. lia. Qed.
+
+Lemma hinv_add_obj m objs pads m' h :
+  hinv m objs pads ->
+  keeps m m' Rnone -> inv m' -> segs_small m' -> nsegs m <= nsegs m' -> nsegs m' < 4294967296 ->
+  p_valid h = true -> good (bm_data m') h ->
+  (r_size (obj_reg h) = 0 \/ zlen (mem m (p_seg h)) <= p_off h) ->
+  (forall q, In q (slots h) -> word_at (bm_data m') (fst q) (snd q) = Some 0) ->
+  hinv m' (objs ++ [h]) pads.
+Proof.
+  intros [Hi Hsm Hns Hg Hin Hpd Hd Hs] K I' Sm' Hn Hn' Hv Gd Fr Z.
+  assert (G : grows (bm_data m) (bm_data m')) by (eapply keeps_grows; eauto).
+  assert (Hregs : forall r, In r (all_regs (objs ++ [h]) pads) -> In r (all_regs objs pads) \/ r = obj_reg h).
+  { intros r Hr. unfold all_regs in *. destruct Hr as [<-|Hr]; [left; left; reflexivity|].
+    rewrite map_app in Hr. apply in_app_or in Hr. destruct Hr as [Hr|Hr].
+    - apply in_app_or in Hr. destruct Hr as [Hr|[<-|[]]]; [left; right; apply in_or_app; left; exact Hr|right; reflexivity].
+    - left. right. apply in_or_app. right. exact Hr. }
+  constructor; auto.
+  - intros x Hx. apply in_app_or in Hx. destruct Hx as [Hx|[<-|[]]].
+    + destruct (Hg x Hx) as [V Gx]. split; [exact V|eapply good_mono; eauto].
+    + split; assumption.
+  - intros r Hr. destruct (Hregs r Hr) as [Hr'| ->].
+    + eapply in_msg_mono; eauto.
+    + destruct Gd as (_ & _ & X & _). exact X.
+  - intros a b Ha Hb. destruct (Hregs a Ha) as [Ha'| ->]; destruct (Hregs b Hb) as [Hb'| ->].
+    + apply Hd; auto.
+    + right. apply (fresh_disjoint m); auto.
+    + right. apply reg_disjoint_sym. apply (fresh_disjoint m); auto.
+    + left. reflexivity.
+  - intros q Hq. cbn [In] in Hq. rewrite flat_map_app in Hq.
+    assert (Hq' : In q ((0, 0) :: flat_map slots objs) \/ In q (slots h)).
+    { destruct Hq as [<-|Hq]; [left; left; reflexivity|]. apply in_app_or in Hq. destruct Hq as [Hq|Hq].
+      - left. right. exact Hq.
+      - cbn in Hq. rewrite app_nil_r in Hq. right. exact Hq. }
+    destruct Hq' as [Hq'|Hq'].
+    + apply (slot_ok_frame m m' Rnone pads objs); auto.
+      * intros r Hr. apply Hin. unfold all_regs. right. apply in_or_app. right. exact Hr.
+      * apply incl_refl.
+      * intros x Hx. apply in_or_app. left. exact Hx.
+    + apply null_slot_ok. apply Z. exact Hq'.
 Qed.
